@@ -22,7 +22,7 @@ import itertools
 import math
 from fractions import Fraction
 
-from ..core import Sub, fail, isnum, jkey, lit, CANON_CODES
+from ..core import Sub, fail, isnum, jkey, lit, CANON_CODES, scale
 
 # delivery-channel differential (core.Env): of every 2 evaluations that bind variables, one is repeated with the
 # values handed in by the cell/range listeners and one with the values returned by custom functions; outcomes must agree
@@ -934,4 +934,48 @@ class Parity(Sub):
         return out
 
 
-SUBS = [ConnFlat(), ConnNested(), NotIf(), Ifs(), Switch(), ErrorConditions(), Predicates(), Parity()]
+
+class LogicScale(Sub):
+    name = 'c12.scale'
+    rule = ('size ladder of the number n of truth values / conditions / cases: AND, OR, XOR over a host list, rows of 16 and '
+            '(n <= 257) literal arguments with the deciding value in the LAST place; IFS with the first true condition in the '
+            'last place; SWITCH matching its last case, and falling through to the default; non-trivial = all')
+    min_cases = 40
+    min_nontrivial = 40
+
+    def cases(self, tier, unit):
+        for n in scale(tier):
+            yield [n]
+
+    def check(self, env, case):
+        n = case[0]
+        env.nt()
+        t_then_f = [True] * (n - 1) + [False]
+        f_then_t = [False] * (n - 1) + [True]
+        ones = [1] * n
+        rows = lambda xs: [xs[i:i + 16] for i in range(0, len(xs), 16)]
+        probes = []
+        for nm, vals in (('flat', lambda x: x), ('rows', rows)):
+            probes += [('AND(xa)', {'xa': vals(t_then_f)}, False), ('AND(xa)', {'xa': vals([True] * n)}, True),
+                       ('OR(xa)', {'xa': vals(f_then_t)}, True), ('OR(xa)', {'xa': vals([False] * n)}, False),
+                       ('XOR(xa)', {'xa': vals(ones)}, n % 2 == 1), ('XOR(xa)', {'xa': vals(f_then_t)}, True),
+                       ('AND(xa,TRUE)', {'xa': vals(ones)}, True), ('OR(FALSE,xa)', {'xa': vals([0] * n)}, False)]
+        if n <= 257:
+            lits = lambda xs: ','.join('TRUE' if x else 'FALSE' for x in xs)
+            probes += [('AND(%s)' % lits(t_then_f), {}, False), ('OR(%s)' % lits(f_then_t), {}, True),
+                       ('XOR(%s)' % lits([True] * n), {}, n % 2 == 1),
+                       ('IFS(%s)' % ','.join('%s,%d' % ('TRUE' if i == n - 1 else 'FALSE', i) for i in range(n)), {}, n - 1),
+                       ('SWITCH(%d,%s)' % (n, ','.join('%d,"r%d"' % (i, i) for i in range(1, n + 1))), {}, 'r%d' % n),
+                       ('SWITCH(0,%s,"dflt")' % ','.join('%d,"r%d"' % (i, i) for i in range(1, n + 1)), {}, 'dflt')]
+        out = []
+        for f, vars_, want in probes:
+            o = env.evo(f, vars_ or None)
+            if o != ['v', want]:
+                out.append(fail('%s with n = %d values%s gives %r, expected %r' % (
+                    f if len(f) < 100 else f[:60] + ' ... ' + f[-30:], n, ' (deciding value last)', o, want), want, o))
+                if len(out) >= 3:
+                    break
+        return out
+
+
+SUBS = [ConnFlat(), ConnNested(), NotIf(), Ifs(), Switch(), ErrorConditions(), Predicates(), Parity(), LogicScale()]
